@@ -162,6 +162,8 @@ pub struct Trace {
     pub started: Vec<(usize, Triple)>,
     /// queue entries dropped by this call because they are held / notified / completed / too far
     pub queue_removed: usize,
+    /// batch entries whose PENDING_TIMEOUT had passed (only add_keys drops those)
+    pub stale_scheduled: usize,
     pub pruned: bool,
 }
 
@@ -376,7 +378,11 @@ impl Model {
             ));
         }
         for t in tr.batch.clone() {
-            self.queue.remove(&t);
+            if let Some(d) = self.queue.remove(&t) {
+                if d < self.now {
+                    tr.stale_scheduled += 1;
+                }
+            }
             if let Some(old) = self.infl.get(&(t.0, t.1)) {
                 tr.dup_in_flight.push((t, old.holder));
                 tr.ended.push((old.wf, "overwritten"));
